@@ -158,6 +158,11 @@ class SymWorld:
         from .shims import digest_of
         return digest_of('sha256', seq)
 
+    def uf(self, alg, seq):
+        """uninterpreted deterministic function of a byte string (sha256, sha512, crc16, crc32c): callee contracts"""
+        from .shims import digest_of
+        return digest_of(alg, seq)
+
     def stub(self, module, name, repl):
         return _Patch(module, name, repl)
 
@@ -330,6 +335,17 @@ class NativeWorld:
         import hashlib
         n = seq.length()
         return hashlib.sha256(seq.value().to_bytes(n // 8, 'big') if n else b'').digest()
+
+    def uf(self, alg, seq):
+        import hashlib
+        from .spec import crc as _crc
+        n = seq.length()
+        data = seq.value().to_bytes(n // 8, 'big') if n else b''
+        if alg == 'crc16':
+            return _crc.crc16_xmodem(data)
+        if alg == 'crc32c':
+            return _crc.crc32c(data)
+        return getattr(hashlib, alg)(data).digest()
 
     def stub(self, module, name, repl):
         return _NoPatch()
